@@ -468,6 +468,11 @@ def run_case(res, case):
     res.state(("F", f1))
     if is_nontrivial(case, specs):
         res.nontriv((specs, parent, crc, fasta))
+    # exporting is read-only: the SAME collection objects exported a second time write the same text
+    o_2 = lib.outcome(export, colls, fasta, crc, rra)
+    res.trans()
+    if o_2[0] != "ok" or o_2[1][0] != f1:
+        res.deviation("leg1", case, o_2[1][0] if o_2[0] == "ok" else o_2[1], f1, sig="export-second-time-differs")
     # the writer takes any ITERABLE of collections: a one-shot iterator in the given order (ordered=False) writes what the
     # list in the given order writes (the sorted file f1 when the given order is the sorted one)
     o_l = lib.outcome(export, [build(s, parent, gn) for s, gn in zip(specs, genomes)], fasta, crc, rra, ordered=False)
